@@ -76,6 +76,73 @@ class Impl:
         ok = (list(back.instructions) == instrs and tuple(back.netqasm_version) == (v0, v1) and back.app_id == app)
         return dict(bytes=list(raw), dec=dec, oracle_ok=ok, err=None)
 
+    def run_history(self, fname, v0, v1, app, body, muts):
+        """One Subroutine OBJECT through a history: serialize, mutate in place, serialize again.
+        muts: list of ("app_setter", a) | ("instantiate", a) | ("replace", i, (name, leaves)) |
+              ("setop", i) [re-assign operand fields of instruction i to those of the final body] |
+              ("append", (name, leaves)) | ("debug", i, text) [insert a DebugInstruction].
+        Returns dict(final_body, final_app, bytes_obj, bytes_fresh, dec) — bytes_obj from the mutated
+        object, bytes_fresh from a freshly built Subroutine with the final content."""
+        import dataclasses
+        from netqasm.lang.instr import DebugInstruction
+        rows = self.rows[fname]
+        instrs = [self.build_instr(rows[n], lv) for n, lv in body]
+        sub = self.Subroutine(instructions=instrs, netqasm_version=(v0, v1), app_id=app)
+        first = bytes(sub)
+        str(sub)  # printing is another reader of the object
+        final = [(n, list(lv)) for n, lv in body]
+        ndebug = 0
+        for m in muts:
+            if m[0] == "app_setter":
+                sub.app_id = m[1]; app = m[1]
+            elif m[0] == "instantiate":
+                sub.instantiate(m[1], {}); app = m[1]
+            elif m[0] == "replace" and final:
+                i = m[1] % len(final)
+                pos = self._real_pos(sub, i)
+                sub.instructions[pos] = self.build_instr(rows[m[2][0]], m[2][1]); final[i] = (m[2][0], list(m[2][1]))
+            elif m[0] == "setop" and final:
+                i = m[1] % len(final)
+                pos = self._real_pos(sub, i)
+                import random as _r
+                lv_new = gen_in_range_instr(_r.Random(m[2]), rows[final[i][0]])[1]  # leaves for the CURRENT class
+                new = self.build_instr(rows[final[i][0]], lv_new)
+                tgt = sub.instructions[pos]
+                for f in dataclasses.fields(tgt):
+                    if f.name not in ("id", "mnemonic", "lineno"):
+                        setattr(tgt, f.name, getattr(new, f.name))
+                final[i] = (final[i][0], list(lv_new))
+            elif m[0] == "append":
+                sub.instructions.append(self.build_instr(rows[m[1][0]], m[1][1])); final.append((m[1][0], list(m[1][1])))
+            elif m[0] == "debug":
+                sub.instructions.insert(m[1] % (len(sub.instructions) + 1), DebugInstruction(text=m[2])); ndebug += 1
+        try:
+            raw = bytes(sub)
+        except Exception as e:  # noqa
+            return dict(final_body=final, final_app=app, bytes_obj=None, bytes_fresh=None, dec=None, err=type(e).__name__, first=list(first))
+        fresh = self.Subroutine(instructions=[self.build_instr(rows[n], lv) for n, lv in final],
+                                netqasm_version=(v0, v1), app_id=app)
+        flav = self.t["flavours"][fname]["flavour"]
+        try:
+            back = self.deserialize(raw, flavour=flav)
+            dec = (back.netqasm_version[0], back.netqasm_version[1], back.app_id, [self.view_instr(i) for i in back.instructions])
+        except Exception as e:  # noqa
+            dec = None
+        return dict(final_body=final, final_app=app, bytes_obj=list(raw), bytes_fresh=list(bytes(fresh)), dec=dec,
+                    err=None, first=list(first), ndebug=ndebug)
+
+    @staticmethod
+    def _real_pos(sub, i):
+        """list position of the i-th non-debug instruction"""
+        from netqasm.lang.instr import DebugInstruction
+        k = -1
+        for pos, ins in enumerate(sub.instructions):
+            if not isinstance(ins, DebugInstruction):
+                k += 1
+                if k == i:
+                    return pos
+        raise IndexError(i)
+
     def run_dcase(self, fname, raw):
         flav = self.t["flavours"][fname]["flavour"]
         try:
